@@ -392,7 +392,9 @@ func providerHost(rng *Rng, p, dom int) string {
 
 func (g *genStorage) paramStep(rng *Rng) Step {
 	n := map[string]int64{}
-	switch rng.Intn(4) {
+	switch rng.Intn(5) {
+	case 4: // the reward-check interval itself moves: reward blocks must follow the configured value on every node
+		n["check_window"] = rng.Range(2, 15)
 	case 0:
 		n["collateralPrice"] = rng.Pick64(2, 5, 1000)
 	case 1:
